@@ -306,7 +306,7 @@ def run(ctx: Ctx):
     pmap(ctx, _sibling_filters, [(p,) for p, ds_ in db.by_pgn.items() if len(ds_) > 1])
     multi = [pgn for pgn, ds in db.by_pgn.items() if len(ds) > 1]
     ctx.notes["multi_definition_pgns"] = len(multi)
-    pair_limit = 2500 if ctx.quick else 250000
+    pair_limit = 2500 if ctx.quick else 100000
     n_hyp = 20 if ctx.quick else 400
     pmap(ctx, _work, [([p], pair_limit, n_hyp, ctx.seed) for p in sorted(multi, key=lambda p: -len(db.by_pgn[p]))])
     ctx.exhaustive = False
